@@ -77,6 +77,10 @@ def codecStep (_ : Unit) (line : String) : Unit × List String :=
       match n.toNat? with
       | some n => hexOut (writeSize n)
       | none => "bad-op"
+    | ["encw", w, i] =>
+      match w.toNat?, instrIn i with
+      | some w, some i => hexOut (encodeNewLine w i ++ encodeNewLine 0 .halt)
+      | _, _ => "bad-op"
     | ["enc", i] =>
       match instrIn i with
       | some i => hexOut (encode i)
